@@ -348,13 +348,20 @@ type c11Outcome struct {
 	orderInvalidAnn                             int
 	beEvPrioInversions                          int
 	met, unmet, stoppedEarly                    int
+	succBy                                      map[string][]types.UID
+	carriedCover                                int
 	stoppedEarlyBy                              map[string]int
 	findings                                    []c11Finding
 	trace                                       []string
 }
 
-func c11Check(views map[types.UID]*c11View, tasks map[string]*c11TaskView, thr *slov1alpha1.ResourceThresholdStrategy, ex *c11Exec) *c11Outcome {
-	out := &c11Outcome{byFeature: map[string]int{}, stoppedEarlyBy: map[string]int{}}
+func c11Check(views map[types.UID]*c11View, tasks map[string]*c11TaskView, thr *slov1alpha1.ResourceThresholdStrategy, ex *c11Exec,
+	carried map[string]map[types.UID]bool, prevEvicted map[types.UID]bool) *c11Outcome {
+	// carried[f]: pods that feature f itself evicted successfully in an earlier round of this case and that the
+	// pod lister still returns (terminating, or stale without deletionTimestamp): "pods already evicted but still
+	// terminating" - what they free counts for f from the start of f's task. prevEvicted: every pod evicted
+	// successfully in an earlier round.
+	out := &c11Outcome{byFeature: map[string]int{}, stoppedEarlyBy: map[string]int{}, succBy: map[string][]types.UID{}}
 	add := func(sig, format string, a ...any) {
 		for _, f := range out.findings {
 			if f.sig == sig {
@@ -470,6 +477,9 @@ func c11Check(views map[types.UID]*c11View, tasks map[string]*c11TaskView, thr *
 		if succ[p.uid] {
 			add("C11/twice/evicted-again-after-success/"+feature, "%s called Evict(%s) although an earlier Evict of the pod succeeded in this round", feature, p.name)
 		}
+		if prevEvicted[p.uid] {
+			add("C11/twice/evicted-again-in-later-round/"+feature, "%s called Evict(%s) although the pod was evicted successfully in an earlier round and is still terminating", feature, p.name)
+		}
 		if ex.pending[p.uid] {
 			add("C11/twice/evict-called-for-already-evicted-pod/"+feature, "%s called Evict(%s) although the executor reports the pod as already evicted", feature, p.name)
 		}
@@ -494,33 +504,59 @@ func c11Check(views map[types.UID]*c11View, tasks map[string]*c11TaskView, thr *
 					extra[uid] = true
 				}
 			}
+			for uid := range carried[feature] {
+				if !known[uid] {
+					extra[uid] = true
+				}
+			}
 			if len(extra) > 0 && len(remaining(t, extra)) == 0 {
-				add("C11/minimality/evicted-while-already-evicted-victims-cover-target/"+feature, "%s attempted %s although target %v is covered once the already-evicted, still terminating candidates later in its list are counted",
+				add("C11/minimality/evicted-while-already-evicted-victims-cover-target/"+feature, "%s attempted %s although target %v is covered once the already-evicted, still terminating victims (later in its list, or evicted by it in an earlier round and still returned by the pod lister) are counted",
 					feature, p.name, t.target)
 			}
 		}
 		if ev.result {
 			succ[p.uid] = true
 			out.successes++
+			out.succBy[feature] = append(out.succBy[feature], p.uid)
 		} else {
 			out.failures++
 		}
 	}
 	for f, t := range tasks {
+		if len(carried[f]) > 0 {
+			only := map[corev1.ResourceName]int64{}
+			for r, v := range t.target {
+				for uid := range carried[f] {
+					v -= views[uid].truth(t.typ, r)
+				}
+				if v > 0 {
+					only[r] = v
+				}
+			}
+			if len(only) == 0 {
+				out.carriedCover++
+			}
+		}
 		rem := remaining(t, nil)
 		if len(rem) == 0 {
 			out.met++
 			continue
 		}
 		out.unmet++
+		// "eviction stops as soon as the resources released by victims ... cover the computed target": the round is
+		// over, the target is still short by what the victims really free, and a candidate of the strategy's own
+		// list that frees something of what is short was never attempted (not a failed call, not an already
+		// evicted pod) - the strategy stopped before the target was covered although it could continue.
 		for _, uid := range t.list {
-			if succ[uid] || known[uid] || attempted[f+"/"+string(uid)] {
+			if succ[uid] || known[uid] || ex.pending[uid] || prevEvicted[uid] || attempted[f+"/"+string(uid)] {
 				continue
 			}
 			for r := range rem {
 				if views[uid].truth(t.typ, r) > 0 {
 					out.stoppedEarly++
 					out.stoppedEarlyBy[f]++
+					add("C11/sufficiency/stopped-before-target-covered/"+f, "%s ended with target %v still short by %v (counting what the %d successful + %d already-evicted victims really free) although candidate %s of its own list, which frees %d of %s, was never attempted",
+						f, t.target, rem, len(succ), len(known), views[uid], views[uid].truth(t.typ, r), r)
 					break
 				}
 			}
@@ -953,6 +989,14 @@ func TestVerifC11CPUEvict(t *testing.T) {
 			desc, script = fmt.Sprintf("random-%d%%", pct), func(int) bool { return !fr.Pct(pct) }
 		}
 		ex := &c11Exec{pending: map[types.UID]bool{}, apiMode: r.Bool(), script: script, evicted: map[types.UID]bool{}}
+		// 40% of the cases continue with 1-2 further rounds after the cooling time; the executor then evicts by API
+		// (the mode in which the Evictor remembers its victims)
+		moreRounds := 0
+		if r.Pct(40) {
+			moreRounds = 1 + r.Weighted(70, 30)
+			ex.apiMode = true
+		}
+		rr := r.Fork()
 		pq := kit.Pick(r, []int{0, 0, 0, 0, 15, 15, 15, 40, 40, 100})
 		if cs.extreme > 0 {
 			pq = 0
@@ -989,35 +1033,41 @@ func TestVerifC11CPUEvict(t *testing.T) {
 		for _, p := range cs.pods {
 			c.Op("pod %s alreadyEvicted=%v", views[p.UID], ex.pending[p.UID])
 		}
-		// the release targets koordinator computes for this input (same call memoryEvict makes)
-		tasks := map[string]*c11TaskView{}
 		feats := ""
 		for _, f := range cs.enabled {
 			feats += string(f) + ","
-			task, err := m.buildEvictTask(f, inf.slo, cs.node)
-			if err != nil || task == nil {
-				c.Count("feature_without_target", 1)
-				continue
-			}
-			tv := &c11TaskView{feature: string(f), typ: task.ReleaseTarget, target: map[corev1.ResourceName]int64{}}
-			for rn, q := range task.ToReleaseResource {
-				if rn == corev1.ResourceCPU {
-					tv.target[rn] = q.MilliValue()
-				} else {
-					tv.target[rn] = q.Value()
-				}
-			}
-			for _, info := range task.SortedEvictPods {
-				tv.list = append(tv.list, info.Pod.UID)
-			}
-			tasks[string(f)] = tv
-			c.Count("target_"+string(f), 1)
-			c.Op("computed %s", c11TargetString(tv))
 		}
+		computeTasks := func() map[string]*c11TaskView {
+			tasks := map[string]*c11TaskView{}
+			// the release targets koordinator computes for this input (same call memoryEvict makes)
+			for _, f := range cs.enabled {
+				task, err := m.buildEvictTask(f, inf.slo, cs.node)
+				if err != nil || task == nil {
+					c.Count("feature_without_target", 1)
+					continue
+				}
+				tv := &c11TaskView{feature: string(f), typ: task.ReleaseTarget, target: map[corev1.ResourceName]int64{}}
+				for rn, q := range task.ToReleaseResource {
+					if rn == corev1.ResourceCPU {
+						tv.target[rn] = q.MilliValue()
+					} else {
+						tv.target[rn] = q.Value()
+					}
+				}
+				for _, info := range task.SortedEvictPods {
+					tv.list = append(tv.list, info.Pod.UID)
+				}
+				tasks[string(f)] = tv
+				c.Count("target_"+string(f), 1)
+				c.Op("computed %s", c11TargetString(tv))
+			}
+			return tasks
+		}
+		tasks := computeTasks()
 		ex.events = nil // buildEvictTask does not touch the executor; keep the log clean anyway
 		c.Op("enabled=%s script=%s apiMode=%v boundaryBiasedKey=%d", feats, desc, ex.apiMode, cs.extreme)
 		m.cpuEvict()
-		out := c11Check(views, tasks, cs.thr, ex)
+		out := c11Check(views, tasks, cs.thr, ex, nil, nil)
 		c.Op("calls=%v", out.trace)
 		c.Count("evict_attempts", out.attempts)
 		c.Count("evict_success", out.successes)
@@ -1035,12 +1085,12 @@ func TestVerifC11CPUEvict(t *testing.T) {
 		c.Count("be_pairs_against_eviction_priority_annotation", out.beEvPrioInversions)
 		c.Count("tasks_target_met", out.met)
 		c.Count("tasks_target_unmet", out.unmet)
-		c.Count("converse_misses_strategy_stopped_with_useful_candidate_untried", out.stoppedEarly)
+		c.Count("untried_useful_candidates_when_stopped_short", out.stoppedEarly)
 		for f, nA := range out.byFeature {
 			c.Count("attempts_"+f, nA)
 		}
 		for f, nA := range out.stoppedEarlyBy {
-			c.Count("converse_misses_stopped_early_"+f, nA)
+			c.Count("stopped_before_target_covered_"+f, nA)
 		}
 		if out.attempts > 0 {
 			c.NonTrivial()
@@ -1060,6 +1110,79 @@ func TestVerifC11CPUEvict(t *testing.T) {
 				c.Harness("%s", f.msg)
 			}
 			c.Report(f.sig, "%s", f.msg)
+		}
+		// ---- further rounds over the same node: the victims of the earlier rounds are still there, terminating
+		carried := map[string]map[types.UID]bool{}
+		prevEvicted := map[types.UID]bool{}
+		marked := map[types.UID]bool{}
+		reported := map[string]bool{}
+		for _, f := range out.findings {
+			reported[f.sig] = true
+		}
+		prev := out
+		for round := 2; round <= 1+moreRounds; round++ {
+			for f, uids := range prev.succBy {
+				for _, uid := range uids {
+					if carried[f] == nil {
+						carried[f] = map[types.UID]bool{}
+					}
+					carried[f][uid] = true
+					prevEvicted[uid] = true
+				}
+			}
+			if len(prevEvicted) == 0 {
+				break
+			}
+			// what the pod lister returns now: the API server set a deletionTimestamp on an evicted pod, which
+			// keeps running (and using resources) during its grace period; 20% of the victims are still seen
+			// through a stale informer object without the timestamp
+			for i, pm := range inf.pods {
+				uid := pm.Pod.UID
+				if !prevEvicted[uid] || marked[uid] {
+					continue
+				}
+				marked[uid] = true
+				if rr.Pct(80) {
+					cp := pm.Pod.DeepCopy()
+					cp.DeletionTimestamp = &metav1.Time{Time: time.Unix(1700000000, 0)}
+					cp.DeletionGracePeriodSeconds = ptr.To(int64(30))
+					inf.pods[i] = &statesinformer.PodMeta{Pod: cp}
+					c.Count("terminating_victims_with_deletion_timestamp", 1)
+					c.Op("round %d: lister returns %s with deletionTimestamp", round, pm.Pod.Name)
+				} else {
+					c.Count("stale_victims_without_deletion_timestamp", 1)
+					c.Op("round %d: lister still returns %s without deletionTimestamp (stale)", round, pm.Pod.Name)
+				}
+			}
+			m.lastEvictTime = time.Time{} // the cooling time has elapsed (no wall clock: state reset)
+			tasks = computeTasks()
+			ex.events = nil
+			c.Op("round %d", round)
+			m.cpuEvict()
+			o := c11Check(views, tasks, cs.thr, ex, carried, prevEvicted)
+			c.Op("round %d calls=%v", round, o.trace)
+			c.Count("e2e_later_rounds", 1)
+			c.Count("later_round_attempts", o.attempts)
+			c.Count("later_round_tasks_covered_by_earlier_victims", o.carriedCover)
+			c.Count("evict_attempts", o.attempts)
+			c.Count("evict_success", o.successes)
+			c.Count("evict_failed", o.failures)
+			c.Count("already_evicted_counted", o.pendingSeen)
+			c.Count("oracle_attempt_checks", o.attempts)
+			c.Count("order_pairs_checked", o.orderPairs-o.orderUndecided)
+			c.Count("tasks_target_met", o.met)
+			c.Count("tasks_target_unmet", o.unmet)
+			c.Count("untried_useful_candidates_when_stopped_short", o.stoppedEarly)
+			for _, f := range o.findings {
+				if strings.HasPrefix(f.sig, "C11/harness/") {
+					c.Harness("%s", f.msg)
+				}
+				if !reported[f.sig] {
+					reported[f.sig] = true
+					c.Report(f.sig, "round %d: %s", round, f.msg)
+				}
+			}
+			prev = o
 		}
 	})
 }
